@@ -313,8 +313,10 @@ def run_typemap(prog, ctx=None):
         tabs = set()
         for (bid, idx), pre in an.pre.items():
             el = tt.blocks[bid].el[idx]
-            if el.get("k") == "ret" and el.get("e") is not None:
-                for nd in walk(el["e"]):
+            # the table the id is looked up in: read in the return expression or in an assignment that feeds it
+            # (with a constant id only the branch of its kind is reachable)
+            if (el.get("k") == "ret" and el.get("e") is not None) or (el.get("k") == "bin" and el.get("op") == "=") or el.get("k") == "decl":
+                for nd in walk(el):
                     if nd.get("k") == "ref" and nd["d"].get("dk") == "global":
                         tabs.add(nd["d"]["n"])
             if el.get("k") == "call" and callee_name(el):
